@@ -12,7 +12,7 @@
 //!   with a signal time every server runs `with_graceful_shutdown`; observations then also carry the virtual ms at which each
 //!   request's handler was entered and `srv=<serving futures that completed Ok>/<servers>` (C07)   (tls 2 / 3: the server's ALPN offers only http/1.1 / only h2)
 //!   (method `W` = protocol upgrade: GET with `Upgrade`, 101, then `bodylen` bytes to the server and `resplen` bytes back on the upgraded stream)
-//!   req: `<id> <ver 10|11|2> <origin 0-5: scheme/host/port variants, see `origin`> <method G|P|U|D|H|W, `h` appended: the caller sets its own Host header>
+//!   req: `<id> <ver 10|11|2> <origin 0-7: scheme/host/port/user-information variants, see `origin`> <method G|P|U|D|H|W, `h` appended: the caller sets its own Host header>
 //!         <pathlen | root: the path is `/` | nopath: the URI has no path> <querylen> <bodylen> <bodychunk> <bodyexact 0|1>
 //!         <handler delay ms> <resplen> <respchunk> <respexact 0|1> <start ms> <cancel after ms|->`
 //! obs : per request `<id>=<ok|cancelled|timeout|err:CLASS|mismatch:FIELDS>/<handler calls>/<ok|aborted|bad:FIELDS|->`
@@ -122,7 +122,10 @@ fn parse_req(t: &[&str]) -> Option<R> {
 fn origin(k: u64, tls: bool) -> (&'static str, &'static str, usize, &'static str) {
     let (plain, secure) = if tls { ("https", "wss") } else { ("http", "ws") };
     let (dflt, other) = if tls { (":443", ":80") } else { (":80", ":443") };
-    match k % 6 {
+    match k % 8 {
+        // user information in the authority: part of the URI, not of the host the request names
+        6 => (plain, "alice@o0.example.com:8080", 1, "o0.example.com:8080"),
+        7 => (plain, "alice:secret@o1.example.com", 2, "o1.example.com"),
         0 => (plain, "o0.example.com", 0, "o0.example.com"),
         1 => (plain, "o0.example.com:8080", 1, "o0.example.com:8080"),
         2 => (plain, "o1.example.com", 2, "o1.example.com"),
@@ -201,7 +204,9 @@ async fn handler(log: Arc<Mutex<SrvLog>>, me: usize, req: http::Request<Body>) -
     let want_body = if on_upgrade.is_some() { vec![] } else { pat(id, 1, hn("x-bl") as usize % 10_000_000) };
     if !aborted && body[..] != want_body[..] { bad.push("body"); }
     let host = h("host");
-    let authority = parts.uri.authority().map(|a| a.to_string()).unwrap_or_default();
+    // (on HTTP/2 the authority is the URI's as the caller wrote it, user information included - hyper passes it on; the Host
+    // header hyperdriver builds for HTTP/1 names host and port only: the comparison is on host and port)
+    let authority = parts.uri.authority().map(|a| a.as_str().rsplit('@').next().unwrap_or("").to_string()).unwrap_or_default();
     let seen_origin = if !host.is_empty() { host.clone() } else { authority };
     // an explicit default port may or may not survive (Host header vs :authority): equivalent
     let dflt = h("x-dp");
@@ -500,7 +505,7 @@ pub fn gen(r: &mut Rng, _i: u64) -> String {
     let buf = if tls != 0 && buf < 64 { 64 } else { buf };
     let n = r.range(2, 10);
     // a scenario uses a few of the six origins, often ones that differ only in port or scheme
-    let pool_of: Vec<u64> = match r.below(4) { 0 => vec![0], 1 => vec![0, 3, 5], 2 => vec![0, 4, 1], _ => vec![0, 1, 2, 3, 4, 5] };
+    let pool_of: Vec<u64> = match r.below(6) { 0 => vec![0], 1 => vec![0, 3, 5], 2 => vec![0, 4, 1], 3 => vec![0, 6, 1], 4 => vec![0, 6, 7, 2], _ => vec![0, 1, 2, 3, 4, 5] };
     // rounds: later rounds find the connections of earlier ones in the pool
     let rounds = r.range(1, 3);
     let small = |r: &mut Rng| match r.below(6) { 0 => 0, 1 => r.range(1, 16), 2 | 3 => r.range(17, 900), 4 => r.range(901, 9000), _ => r.range(9001, 70000) };
